@@ -50,7 +50,9 @@ macro_rules! from_feel_number_into {
     impl TryFrom<&FeelNumber> for $l {
       type Error = DmntkError;
       fn try_from(value: &FeelNumber) -> Result<Self, Self::Error> {
-        return value.to_string().parse::<$l>().map_err(|_| err_number_conversion_failed());
+        // a number with an integral value converts, however it is written (1.0, 2.00)
+        let text = if value.is_integer() { value.trunc().to_string() } else { value.to_string() };
+        return text.parse::<$l>().map_err(|_| err_number_conversion_failed());
       }
     }
   };
